@@ -43,6 +43,7 @@ enum Op {
     Try,
     RecvTimeout(u64),
     Recv,
+    Sleep(u64),      // the caller does something else for a while (no queue call)
 }
 
 struct Shadow {
@@ -175,6 +176,13 @@ fn run_history(ops: &[Op], counters: &mut Vec<(String, u64)>) -> Option<(String,
                 }
                 bump(if *t == 0 { "op_receive_timeout_zero" } else { "op_receive_timeout_blocking" });
             }
+            Op::Sleep(d) => {
+                std::thread::sleep(Duration::from_nanos(*d));
+                // not a queue call: nothing for the model to do (clock readings come with the receives)
+                if case.ends_with(' ') { case.pop(); imp.pop(); }
+                bump("op_sleep");
+                continue;
+            }
             Op::Recv => {
                 let short_live = sh.timers.iter().any(|t| !t.2 && !t.3 && t.1 < FAR);
                 if sh.queued == 0 && !short_live {
@@ -219,6 +227,21 @@ pub fn run(a: &Args) {
         vec![Op::Timer(52 * MS), Op::RecvTimeout(34 * MS), Op::RecvTimeout(34 * MS)],
     ];
     let mut histories: Vec<Vec<Op>> = corpus;
+    // bursts of timer commands larger than any plausible per-call batch, looked at only after the deadline
+    for (n, cancel_all) in [(150usize, true), (300, true), (200, false)] {
+        let mut h: Vec<Op> = (0..n).map(|_| Op::Timer(21 * MS)).collect();
+        if cancel_all { h.extend((0..n).map(Op::Cancel)); } else { h.extend((0..n).step_by(2).map(Op::Cancel)); }
+        h.push(Op::Send);
+        h.push(Op::Sleep(40 * MS));
+        h.extend((0..6).map(|_| Op::Try));
+        histories.push(h);
+        let mut h: Vec<Op> = (0..n).map(|_| Op::Timer(FAR)).collect();
+        h.extend((0..n).map(Op::Cancel));
+        h.push(Op::Timer(0));
+        h.push(Op::Try);
+        h.push(Op::Try);
+        histories.push(h);
+    }
     for _ in 0..n {
         let len = r.range(3, 40) as usize;
         histories.push(gen_history(&mut r, &mut out, len));
